@@ -14,6 +14,8 @@ pub fn swarm() -> Swarm {
         alloc_modes: true,
         stalls: true,
         stall_max_ns: 3_000_000,
+        // a thread held up inside add_timer / the timer thread's scan for longer than a short timer
+        stall_focus: &["src/timeout_list.rs", "may_queue/src/mpsc_list_v1.rs", "src/verif.rs"],
         cas_weak: true,
         est_len: 6000,
         max_steps: 900_000,
@@ -317,5 +319,137 @@ pub fn run(seed: u64, mut ov: impl FnMut(&mut engine::Cfg)) -> ! {
     for a in actors.iter_mut() {
         rt::expect_end(a, false);
     }
+    engine::finish_ok()
+}
+
+// ------------------------------------------------------------------------------------------------
+// aimed: two coroutines arm a timer of the same, never used duration at the same moment; one of
+// them is held up between missing the interval list under the read lock and taking the write
+// lock, for longer than the duration: the other one's timer has fired and the timer thread has
+// found the new list empty by then. The late push is the head of an empty list that is in no heap:
+// whoever pushes onto an empty list installs it, on every path
+// ------------------------------------------------------------------------------------------------
+
+pub fn run_aimed(seed: u64, mut ov: impl FnMut(&mut engine::Cfg)) -> ! {
+    let mut r = gen_rng(seed);
+    let d = *r.pick(&[1_000u64, 300_000, 999_999, 1_000_000, 1_500_000]);
+    let nth = r.below(4) as u32;
+    let extra = *r.pick(&[200_000u64, 1_000_000, 3_000_000]);
+    let followers = r.below(3) as usize;
+    let mut cfg = swarm_cfg(seed, &Swarm { stalls: false, ..swarm() });
+    cfg.tick_ns = 25;
+    ov(&mut cfg);
+    engine::init(cfg);
+    engine::set_extra("params", engine::json_str(&format!("aimed: d {} nth {} extra {} followers {}", d, nth, extra, followers)));
+    rt::boot(&RtCfg { workers: 2, pool_cap: 8, stack_size: 0x8000, poll_ns: 10_000_000 });
+    engine::set_diag(|| format!("in flight: {}", OPS.pending()));
+    engine::set_vt_limit(engine::now() + 400_000_000);
+    let go = Arc::new(AtomicBool::new(false));
+    let mut hs = Vec::new();
+    for k in 0..2 + followers {
+        let go = go.clone();
+        let h = unsafe {
+            coroutine::Builder::new()
+                .id(k % 2)
+                .spawn(move || {
+                    rt::wait_flag(&go, usize::MAX);
+                    if k >= 2 {
+                        // later timers of exactly that duration queue behind the stranded one
+                        coroutine::sleep(Duration::from_nanos(d + extra + 1_000_000));
+                    }
+                    if k == 1 {
+                        engine::stall_self_at_site("src/verif.rs", "lock", nth, ceil_ms(d) + extra);
+                    }
+                    let t0 = engine::now();
+                    coroutine::sleep(Duration::from_nanos(d));
+                    let t1 = engine::now();
+                    engine::disarm_stall();
+                    if t1 < t0 + d {
+                        violation(&format!("sleep({} ns) returned after {} ns", d, t1 - t0));
+                    }
+                })
+                .unwrap()
+        };
+        hs.push(h);
+    }
+    rt::set_flag(&go);
+    for (k, h) in hs.into_iter().enumerate() {
+        let o = OPS.begin(format!("join of sleeper {} (sleep {} ns)", k, d));
+        let _ = h.join();
+        o.done();
+    }
+    engine::finish_ok()
+}
+
+
+// ------------------------------------------------------------------------------------------------
+// many distinct durations: the timer list keeps one queue per duration and starts to drop drained
+// queues once more than 1024 exist (a long-running program that computes "time left" timeouts gets
+// there quickly). Timed waits must go on working - and nothing may be freed that somebody still
+// holds a handle to - after that point
+// ------------------------------------------------------------------------------------------------
+
+pub fn run_many(seed: u64, mut ov: impl FnMut(&mut engine::Cfg)) -> ! {
+    let mut r = gen_rng(seed);
+    let fill = 1026 + r.below(6) as u64;
+    let base = 1 + r.below(50_000);
+    let waits = r.range(1, 3) as usize;
+    let kind = r.below(3);
+    let mut cfg = swarm_cfg(seed, &Swarm { stalls: false, max_steps: 2_500_000, ..swarm() });
+    // poison mode makes a use of freed timer nodes visible at once
+    if cfg.alloc_mode == 0 {
+        cfg.alloc_mode = 2;
+    }
+    ov(&mut cfg);
+    engine::init(cfg);
+    engine::set_extra("params", engine::json_str(&format!("many durations: fill {} base {} waits {} kind {}", fill, base, waits, kind)));
+    rt::boot(&RtCfg { workers: 1 + (seed % 2) as usize, pool_cap: 8, stack_size: 0x8000, poll_ns: 1_000_000_000 });
+    engine::set_diag(|| format!("in flight: {}", OPS.pending()));
+    engine::set_vt_limit(engine::now() + 5_000_000_000);
+    let h = unsafe {
+        coroutine::spawn(move || {
+            for i in 0..fill {
+                coroutine::sleep(Duration::from_nanos(base + i));
+            }
+            // from here on a drained queue is dropped by the timer thread
+            for k in 0..waits {
+                let d = 1_000_000 * (1 + k as u64) + 1;
+                let t0 = engine::now();
+                let o = OPS.begin(format!("timed wait {} of kind {} for {} ns after {} distinct durations", k, kind, d, fill));
+                match kind {
+                    0 => match Blocker::current().park(Some(Duration::from_nanos(d))) {
+                        Err(may::coroutine::ParkError::Timeout) => {}
+                        r => violation(&format!("Blocker::park({} ns) with nobody to unpark it returned {:?}", d, r)),
+                    },
+                    1 => {
+                        let s = Semphore::new(0);
+                        if s.wait_timeout(Duration::from_nanos(d)) {
+                            violation("wait_timeout on an empty semaphore succeeded");
+                        }
+                    }
+                    _ => {
+                        let (_tx, rx) = mpsc::channel::<u32>();
+                        if rx.recv_timeout(Duration::from_nanos(d)).is_ok() {
+                            violation("recv_timeout on an empty channel returned a value");
+                        }
+                    }
+                }
+                o.done();
+                let t1 = engine::now();
+                if t1 < t0 + d {
+                    violation(&format!("timed wait of {} ns returned after {} ns", d, t1 - t0));
+                }
+                coroutine::sleep(Duration::from_nanos(base + fill + k as u64));
+            }
+        })
+    };
+    let o = OPS.begin("join of the sleeper".to_string());
+    if let Err(e) = h.join() {
+        violation(&format!("the coroutine ended with a panic: {}", crate::panic_msg(&e)));
+    }
+    o.done();
+    // the runtime (and its heap) still works
+    let h = unsafe { coroutine::spawn(|| coroutine::sleep(Duration::from_micros(3))) };
+    let _ = h.join();
     engine::finish_ok()
 }
